@@ -2,7 +2,7 @@
 see selftest/benign/<module>.NOTES.md).  No check of any property may fire on them."""
 ALL = ["C%02d" % i for i in range(1, 21)]
 # behaviour-preserving patches on which a check still raises an alarm (DESIGN 11.6): listed on every run, not failures
-LIMITS = {"w5", "v6", "u3"}
+LIMITS = {"w5", "v6", "u3", "q1"}
 CASES = [
     {"id": "benign-%s" % m, "props": ALL, "expect": "quiet", "patches": [("selftest/benign/%s.diff" % m, False)],
      "note": "independent benign refactoring of src/%s/mod.rs" % m}
@@ -44,4 +44,10 @@ CASES = [
                     ("n4", "module split: header/protected.rs, sign/builder.rs, key/set.rs behind pub use re-exports"),
                     ("n5", "docs and attributes (#[must_use], #[inline], const fn, Hash derives)"),
                     ("n6", "local renames and import hygiene across nine modules"))
+] + [
+    {"id": "benign7-%s" % m, "props": ALL, "expect": "limit" if m in LIMITS else "quiet", "patches": [("selftest/benign/%s.diff" % m, False)], "note": what}
+    for m, what in (("q1", "twelve debug_assert!s that can never fail (C01 cannot prove most of them: documented limit)"),
+                    ("q2", "additive read-only accessors and trait impls (get, param, AsRef, Display, IntoIterator)"),
+                    ("q3", "items reordered / regrouped within files, two impl blocks merged"),
+                    ("q4", "Self:: paths, dropped turbofish and annotations, function values instead of closures"))
 ]
